@@ -32,6 +32,50 @@ theorem whole_core (c : Ctx) (root : Val) (env : Env) (hr : EnvRel c root env) (
   have hk := wholeOps_cases k (unproved_nil k h1) hu
   exact whole_strict c hr.hign k hk v ha htz a hev h5 res (by simpa [bind, Except.bind] using hres)
 
+theorem accOps_cases (k : String) (h : accOps.contains k = true) :
+    k = "$sum" ∨ k = "$avg" ∨ k = "$min" ∨ k = "$max" := by
+  simpa [accOps] using h
+
+/-- `$sum $avg $min $max` applied to one operand that is not written as a list: inside D the
+    operand is a path or a variable whose value is an array -/
+theorem acc_scalar_core (c : Ctx) (root : Val) (env : Env) (hr : EnvRel c root env) (k : String)
+    (hk : accOps.contains k = true) (v : Val) (hag : Agrees v) (ha : v.isArr = false)
+    (hd : v.isDoc = false)
+    (h1 : okReasons (sEval root env v) = []) (h2 : rExpr root env v = [])
+    (h3 : (match sEval root env v with
+         | .ok (some (.arr xs)) => strictReasons k (xs.map some)
+         | .ok (some _) => ["scalararg"]
+         | .ok none => ["accbaremissing"]
+         | .error _ => []) = [])
+    (res : Option Val)
+    (hres : (do (accBareS k (← sEval root env v)).map some) = .ok res) :
+    eval c (.doc [(k, v)]) = .ok res := by
+  obtain ⟨a, ha'⟩ := okReasons_nil _ h1
+  have hev := hag c root env hr h2 h1
+  rw [ha'] at hev hres h3
+  have hk' := accOps_cases k hk
+  match a, h3, hres, hev, ha' with
+  | none, h3, _, _, _ => simp at h3
+  | some (.arr ys), h3, hres, hev, ha' =>
+    simp only [bind, Except.bind, accBareS] at hres
+    cases h4 : accS k (ys.map some) with
+    | error e => simp [h4, Except.map] at hres
+    | ok w =>
+      simp [h4, Except.map] at hres; subst hres
+      cases v with
+      | str s => exact acc_bare_case c hr.hign k hk' s ys hev h3 w h4
+      | arr xs => simp [Val.isArr] at ha
+      | doc fs => simp [Val.isDoc] at hd
+      | _ => all_goals simp [sEval] at ha'
+  | some .null, h3, _, _, _ => simp at h3
+  | some (.bool _), h3, _, _, _ => simp at h3
+  | some (.int _), h3, _, _, _ => simp at h3
+  | some (.dbl _ _), h3, _, _, _ => simp at h3
+  | some (.str _), h3, _, _, _ => simp at h3
+  | some (.date _ _), h3, _, _, _ => simp at h3
+  | some (.oid _), h3, _, _, _ => simp at h3
+  | some (.doc _), h3, _, _, _ => simp at h3
+
 /-- `{$op: operand}` with an operand that is neither a list nor a document -/
 theorem op_scalar_case (c : Ctx) (root : Val) (env : Env) (hr : EnvRel c root env) (k : String)
     (v : Val) (hag : Agrees v) (ha : v.isArr = false) (hd : v.isDoc = false)
@@ -42,6 +86,13 @@ theorem op_scalar_case (c : Ctx) (root : Val) (env : Env) (hr : EnvRel c root en
   rw [hres]
   have htz : hasTzKeys v = false := by cases v <;> simp [Val.isDoc] at hd <;> rfl
   have key : ∀ (hre' : (if k = "$literal" then []
+        else if accOps.contains k = true then
+          okReasons (sEval root env v) ++ rExpr root env v ++
+          (match sEval root env v with
+           | .ok (some (.arr xs)) => strictReasons k (xs.map some)
+           | .ok (some _) => ["scalararg"]
+           | .ok none => ["accbaremissing"]
+           | .error _ => [])
         else if strictOps.contains k = true then
           unproved k ++ okReasons (sEval root env v) ++ rExpr root env v ++
           (if (unaryOps.contains k || k = "$size" || k = "$concatArrays") = true then []
@@ -53,6 +104,7 @@ theorem op_scalar_case (c : Ctx) (root : Val) (env : Env) (hr : EnvRel c root en
           ["scalararg"] ++ okReasons (sEval root env v) ++ rExpr root env v
         else ["unproved:" ++ k]) = [])
       (hres' : (if k = "$literal" then .ok (some v)
+        else if accOps.contains k = true then do (accBareS k (← sEval root env v)).map some
         else if strictOps.contains k = true then do applyStrict k [← sEval root env v]
         else if (k = "$and" || k = "$or") = true then do
           pure (some (.bool (Spec.toBool (← sEval root env v))))
@@ -62,6 +114,13 @@ theorem op_scalar_case (c : Ctx) (root : Val) (env : Env) (hr : EnvRel c root en
     by_cases hlit : k = "$literal"
     · subst hlit; simp at hres'; rw [literal_id, hres']
     · simp only [hlit, if_false] at hre' hres'
+      by_cases hacc : accOps.contains k = true
+      · simp only [hacc, if_true] at hre' hres'
+        obtain ⟨h12, h3⟩ := append_nil2 hre'
+        obtain ⟨h1, h2⟩ := append_nil2 h12
+        exact acc_scalar_core c root env hr k hacc v hag ha hd h1 h2 h3 res hres'
+      have hacc' : accOps.contains k = false := by simpa using hacc
+      simp only [hacc', Bool.false_eq_true, if_false] at hre' hres'
       by_cases hst : strictOps.contains k = true
       · simp only [hst, if_true] at hre' hres'
         obtain ⟨h1234, h5⟩ := append_nil2 hre'
